@@ -118,6 +118,11 @@ def r_odsrep(ctx, rep):
                 if b["op"] in ("||",):
                     pass
         rep_lits = {l for l in lits if "repeated" in l or "spanned" in l or "number-" in l}
+        # the parsed count is used as written: a clamp (min / clamp / saturating) silently shortens long runs, so the
+        # same grid stored as one run or as several reads differently
+        clamps = [c for c in walk_k(fn.body, "MethodCall") if c["name"] in ("min", "clamp") and any(x.get("k") == "MethodCall" and x.get("name") == "parse" for x in walk(c["recv"]))]
+        if clamps:
+            rep.violation("R-ODSREP", key + "|clamp", loc(clamps[0]), "%s clamps the parsed repeat count (`%s`): a run longer than the clamp is shortened, which displaces every later cell of the row and drops repeated values" % (fname, clamps[0]["name"]))
         if rep_lits == {lit}:
             rep.holds("R-ODSREP", key, loc(fn.raw), "only `%s` feeds the repeat count" % lit)
         else:
